@@ -8,6 +8,7 @@ package fixture
 import (
 	"errors"
 	"slices"
+	"strconv"
 )
 
 var errFixture = errors.New("fixture")
@@ -356,3 +357,9 @@ func badIndexOffByOne(b byte) int {
 func goodVertexEqualXY(p, v []float64) bool { return p[0] == v[0] && p[1] == v[1] }
 
 func badVertexEqualWhole(p, v []float64) bool { return slices.Equal(p, v) }
+
+// ---- float to integer conversion on a number-formatting path
+
+func goodFormatFloat(f float64) string { return strconv.FormatFloat(f, 'f', -1, 64) }
+
+func badFormatIntFastPath(f float64) string { return strconv.FormatInt(int64(f), 10) }
